@@ -231,18 +231,39 @@ func cmdSelftest(args []string) int {
 	run := fs.String("run", "", "only tests whose name contains this")
 	verbose := fs.Bool("v", false, "verbose")
 	fs.Parse(args)
-	p, tests, err := loadTests(*repo, *verif+"/harness", strings.Split(*pk, ","))
-	if err != nil {
-		fmt.Println("selftest: load:", err)
+	r := runSelftest(*repo, *verif, strings.Split(*pk, ","), *run, *verbose, true)
+	if r.err != nil {
+		fmt.Println("selftest: load:", r.err)
 		return 2
 	}
+	fmt.Printf("selftest: %d test functions interpreted: %d pass, %d fail, %d skipped (unsupported), %d require-assertions evaluated\n", r.pass+r.fail+r.skipped, r.pass, r.fail, r.skipped, r.asserts)
+	if r.fail > 0 {
+		return 1
+	}
+	return 0
+}
+
+type selftestResult struct {
+	pass, fail, skipped, asserts int
+	failed                       []string
+	err                          error
+}
+
+func runSelftest(repo, verif string, pkgs []string, run string, verbose, print bool) selftestResult {
+	var res selftestResult
+	p, tests, err := loadTests(repo, verif+"/harness", pkgs)
+	if err != nil {
+		res.err = err
+		return res
+	}
+	runp, verbosep := &run, &verbose
 	sort.Slice(tests, func(i, j int) bool { return tests[i].String() < tests[j].String() })
-	ex := NewExplorer(p, Config{Workers: 1, SolverMs: 1000, MaxSteps: 200_000_000, Solvers: []string{"cvc5", "z3-new"}, Verbose: *verbose})
+	ex := NewExplorer(p, Config{Workers: 1, SolverMs: 1000, MaxSteps: 200_000_000, Solvers: []string{"cvc5", "z3-new"}, Verbose: *verbosep})
 	w := &Worker{ex: ex, ts: NewTermStore(), solver: NewPortfolio(1000, ex.cfg.Solvers)}
 	defer w.solver.Close()
 	pass, failN, skipped, asserts := 0, 0, 0, 0
 	for _, fn := range tests {
-		if *run != "" && !strings.Contains(fn.Name(), *run) {
+		if *runp != "" && !strings.Contains(fn.Name(), *runp) {
 			continue
 		}
 		it := &workItem{harness: fn}
@@ -255,20 +276,22 @@ func cmdSelftest(args []string) int {
 		switch {
 		case end.kind == "unsupported" || end.kind == "budget":
 			skipped++
-			fmt.Printf("SKIP %s: %s\n", fn.String(), end.msg)
+			if print {
+				fmt.Printf("SKIP %s: %s\n", fn.String(), end.msg)
+			}
 		case end.kind != "done" || len(m.self.failures) > 0:
 			failN++
-			fmt.Printf("FAIL %s: %s %v\n", fn.String(), end.kind+" "+end.msg, m.self.failures)
+			res.failed = append(res.failed, fn.String())
+			if print {
+				fmt.Printf("FAIL %s: %s %v\n", fn.String(), end.kind+" "+end.msg, m.self.failures)
+			}
 		default:
 			pass++
-			if *verbose {
+			if *verbosep && print {
 				fmt.Printf("ok   %s (%d assertions)\n", fn.String(), m.self.asserts)
 			}
 		}
 	}
-	fmt.Printf("selftest: %d test functions interpreted: %d pass, %d fail, %d skipped (unsupported), %d require-assertions evaluated\n", pass+failN+skipped, pass, failN, skipped, asserts)
-	if failN > 0 {
-		return 1
-	}
-	return 0
+	res.pass, res.fail, res.skipped, res.asserts = pass, failN, skipped, asserts
+	return res
 }
